@@ -506,6 +506,25 @@ func (w *faultWriter) Write(p []byte) (int, error) {
 
 var _ io.Writer = (*faultWriter)(nil)
 
+// richFaultWriter: the same destination with the optional interfaces a library may look for (io.ByteWriter,
+// io.StringWriter, io.ReaderFrom): every such call is a Write call of the same fault discipline — an error
+// returned through any of them is the writer's error (C17) — and counts like one.
+type richFaultWriter struct{ *faultWriter }
+
+func (w richFaultWriter) WriteByte(b byte) error { _, err := w.Write([]byte{b}); return err }
+func (w richFaultWriter) WriteString(s string) (int, error) { return w.Write([]byte(s)) }
+func (w richFaultWriter) ReadFrom(r io.Reader) (int64, error) {
+	b, _ := io.ReadAll(r)
+	n, err := w.Write(b)
+	return int64(n), err
+}
+
+var (
+	_ io.ByteWriter   = richFaultWriter{}
+	_ io.StringWriter = richFaultWriter{}
+	_ io.ReaderFrom   = richFaultWriter{}
+)
+
 func errName(err error) string {
 	switch {
 	case err == nil:
@@ -712,7 +731,11 @@ func (c *RCase) Run() {
 			}()
 			continue
 		}
-		w := &faultWriter{failAt: o.FailAt, mode: oi + o.FailAt}
+		fw := &faultWriter{failAt: o.FailAt, mode: oi + o.FailAt}
+		var w io.Writer = fw
+		if (oi+o.FailAt)%2 == 0 {
+			w = richFaultWriter{fw}
+		}
 		var err error
 		func() {
 			defer func() {
@@ -734,7 +757,7 @@ func (c *RCase) Run() {
 		if c.Panic != "" {
 			return
 		}
-		c.GoRes = append(c.GoRes, fmt.Sprintf("%s %s %d %s", errName(err), hx(w.buf), w.writes, evStr()))
+		c.GoRes = append(c.GoRes, fmt.Sprintf("%s %s %d %s", errName(err), hx(fw.buf), fw.writes, evStr()))
 	}
 	var sb strings.Builder
 	fmt.Fprintf(&sb, "session %d %d", sessFuel, len(c.Tpls))
